@@ -338,10 +338,14 @@ open_dump(kdump_ctx_t *ctx)
 		ret = ctx->shared->ops->probe(ctx);
 		if (ret == KDUMP_OK)
 			return finish_open_dump(ctx);
+		if (ctx->shared->ops->attr_cleanup)
+			ctx->shared->ops->attr_cleanup(ctx->dict);
 		if (ctx->shared->ops->cleanup)
 			ctx->shared->ops->cleanup(ctx->shared);
-		if (ret != KDUMP_NOPROBE)
+		if (ret != KDUMP_NOPROBE) {
+			ctx->shared->ops = NULL;
 			return ret;
+		}
 
 		ctx->shared->ops = NULL;
 		if (ctx->shared->cache) {
